@@ -141,6 +141,7 @@ DEVIATIONS = (
     'cut-lost-in-later-iteration',      # ~ in iteration >= 2 of a closure / in e after a separator
     'optional-around-repetition-dropped',  # [ {e} ], [ s%{e} ], [ [e] ] parse as the inner expression, so a
                                         # repetition that fails (after a cut) makes the optional fail
+    'pattern-first-group-only',         # a pattern with several groups yields its first group, not the tuple
     'open-list-spliced',                # a list that is the value of a multi-item group operand of a name /
                                         # override (and hence of a rule whose value is such an override) is
                                         # not closed: it is spliced when it is the first item of its scope and
@@ -346,6 +347,7 @@ class _Evaluator:
         self.dev_cutlost = 'cut-lost-in-later-iteration' in self.dev
         self.dev_open = 'open-list-spliced' in self.dev
         self.dev_optdrop = 'optional-around-repetition-dropped' in self.dev
+        self.dev_pat1 = 'pattern-first-group-only' in self.dev
         self.active = set()  # (rule, pos) being evaluated: re-entry = left recursion
         self.pat_cache = {}
         self.used_policy = set()  # which open aspects were actually exercised
@@ -409,7 +411,7 @@ class _Evaluator:
         elif len(g) == 1:
             v = g[0]
         else:
-            v = tuple(g)
+            v = g[0] if self.dev_pat1 else tuple(g)
         if m.end() > pos:
             self.matched = True
         return m.end(), [v], [], _NOCUT
